@@ -930,11 +930,30 @@ package regexp2
 
 // A prefix filter is only installed for left-to-right programs without \G: its candidate becomes the scan's start
 // offset, which is also the \G origin (this is what makes OriginFree true for filtered programs).
+// ... and only when the literal it looks for does not contain U+FFFD: an invalid byte of the input decodes to U+FFFD
+// without being its encoding, so the rune entry points would find matches a byte-level search cannot see.
+//@ spec func HasFFFD(s string) bool = strings.ContainsRune(s, 65533)
+//@ spec func SearchesFFFD(o *syntax.FindOptimizations) bool =
+//@     ((o.FindMode == syntax.LeadingString_LeftToRight || o.FindMode == syntax.LeadingString_OrdinalIgnoreCase_LeftToRight) && HasFFFD(o.LeadingPrefix)) ||
+//@     ((o.FindMode == syntax.LeadingStrings_LeftToRight || o.FindMode == syntax.LeadingStrings_OrdinalIgnoreCase_LeftToRight) && exists k int :: 0 <= k && k < len(o.LeadingPrefixes) && HasFFFD(o.LeadingPrefixes[k])) ||
+//@     (o.FindMode == syntax.FixedDistanceChar_LeftToRight && o.FixedDistanceLiteral.C == 65533) ||
+//@     (o.FindMode == syntax.FixedDistanceString_LeftToRight && HasFFFD(o.FixedDistanceLiteral.S)) ||
+//@     (o.FindMode == syntax.LiteralAfterLoop_LeftToRight && o.LiteralAfterLoop != nil && HasFFFD(o.LiteralAfterLoop.String))
+//@ func searchesForRuneError(opts *syntax.FindOptimizations) (b bool)
+//@   props C02 C03
+//@   requires opts != nil
+//@   ensures b == SearchesFFFD(opts)
+//@   loop 0:
+//@     invariant -1 <= rangeindex && rangeindex < len(opts.LeadingPrefixes) && (opts.FindMode == syntax.LeadingStrings_LeftToRight || opts.FindMode == syntax.LeadingStrings_OrdinalIgnoreCase_LeftToRight)
+//@     invariant forall k int :: 0 <= k && k <= rangeindex ==> !HasFFFD(opts.LeadingPrefixes[k])
+//@     decreases len(opts.LeadingPrefixes) - rangeindex
+
 //@ func newStringPrefixFilter(code *syntax.Code) (f StringPrefixFilter)
 //@   props C02 C03
 //@   modifies *
 //@   ensures[no-G]  f != nil ==> code != nil && !syntax.UsesStart(code)
 //@   ensures[ltr]   f != nil ==> !code.RightToLeft && code.FindOptimizations != nil
+//@   ensures[no-fffd] f != nil ==> !old(SearchesFFFD(code.FindOptimizations))
 
 //@ func (re *Regexp) matchStringAt(s string, startAt int) (ok bool, err error)
 //@   props C02 C12
